@@ -24,6 +24,7 @@ type FmtCase struct {
 	Items   [][]int `json:"items,omitempty"` // wcnf: weight followed by the literals
 	Lay     []int   `json:"lay"`
 	Text    []int   `json:"text,omitempty"`
+	Pin     string  `json:"pin,omitempty"` // name of a pinned finding (corpus only)
 }
 
 func fmtCode(f string) int { return map[string]int{"dimacs": 0, "opb": 1, "wcnf": 2, "explain": 3}[f] }
@@ -105,6 +106,9 @@ func genC13(r *rand.Rand, idx int, tier string) *FmtCase {
 			c.CostW = make([]int, len(c.CostL))
 			for i := range c.CostW {
 				c.CostW[i] = r.Intn(7)
+				if r.Intn(5) == 0 {
+					c.CostW[i] = -1 - r.Intn(5)
+				}
 			}
 			for _, l := range c.CostL {
 				if abs(l) > mv {
@@ -160,7 +164,7 @@ func runC13(e *emitter, idx int, c *FmtCase) {
 	}
 	text := string(b)
 	csx := L(I(fmtCode(c.Fmt)), c.objSx(), Bytes(text))
-	meta := Meta{Class: c.Fmt, Desc: c}
+	meta := Meta{Class: c.Fmt, Desc: c, Extra: map[string]interface{}{"pin": c.Pin}}
 	e.begin(idx, csx, meta)
 	errCode := 0
 	var rest []Sx
